@@ -21,7 +21,7 @@ Theorem genic_twoway u p tr gA gB : allele01 gA -> allele01 gB ->
   genic_pair u p tr (tafreq gA gA) (tafreq gB gB) ==
   sumQ (map (fun i => eff u tr gA gB i * cov_D1s 0 (Some 0%nat) * eff u tr gA gB i) (ix p)).
 Proof.
-  intros HA HB. unfold genic_pair. rewrite qsum_sumQ. apply sumQ_ext_all. intros i. cbv zeta.
+  intros HA HB. unfold genic_pair, genic_freq. rewrite qsum_sumQ. apply sumQ_ext_all. intros i. cbv zeta.
   unfold tafreq, eff, gdiff. rewrite D1_r0.
   destruct (HA i) as [-> | ->], (HB i) as [-> | ->]; injz; field.
 Qed.
@@ -32,11 +32,46 @@ Theorem genic_dihybrid u p tr a0 a1 b0 b1 : allele01 a0 -> allele01 a1 -> allele
   sumQ (map (fun i => (1#4) * (eff u tr a0 a1 i * eff u tr a0 a1 i + eff u tr b1 a1 i * eff u tr b1 a1 i + eff u tr b1 a0 i * eff u tr b1 a0 i
                              + eff u tr b0 a1 i * eff u tr b0 a1 i + eff u tr b0 a0 i * eff u tr b0 a0 i + eff u tr b0 b1 i * eff u tr b0 b1 i)) (ix p)).
 Proof.
-  intros H1 H2 H3 H4. unfold genic_pair. rewrite qsum_sumQ. apply sumQ_ext_all. intros i. cbv zeta.
+  intros H1 H2 H3 H4. unfold genic_pair, genic_freq. rewrite qsum_sumQ. apply sumQ_ext_all. intros i. cbv zeta.
   unfold tafreq, eff, gdiff.
   destruct (H1 i) as [-> | ->], (H2 i) as [-> | ->], (H3 i) as [-> | ->], (H4 i) as [-> | ->];
     injz; field.
 Qed.
+
+(** ** three-way (inbred parents; 1 = recurrent, 2 = female, 3 = male): the i = j terms of the three-way block with D = 1 *)
+Theorem genic_threeway u p tr gR gF gM : allele01 gR -> allele01 gF -> allele01 gM ->
+  genic_tri u p tr (tafreq gR gR) (tafreq gF gF) (tafreq gM gM) ==
+  sumQ (map (fun i => (1#4) * (2 * (eff u tr gF gR i * eff u tr gF gR i + eff u tr gM gR i * eff u tr gM gR i)
+                             + eff u tr gF gM i * eff u tr gF gM i)) (ix p)).
+Proof.
+  intros H1 H2 H3. unfold genic_tri, genic_freq. rewrite qsum_sumQ. apply sumQ_ext_all. intros i. cbv zeta.
+  unfold tafreq, eff, gdiff.
+  destruct (H1 i) as [-> | ->], (H2 i) as [-> | ->], (H3 i) as [-> | ->]; injz; field.
+Qed.
+
+(** ** four-way (inbred parents g1..g4 = female2, male2, female1, male1): the i = j terms of the four-way block with D = 1 *)
+Theorem genic_fourway u p tr g1 g2 g3 g4 : allele01 g1 -> allele01 g2 -> allele01 g3 -> allele01 g4 ->
+  genic_quad u p tr (tafreq g1 g1) (tafreq g2 g2) (tafreq g3 g3) (tafreq g4 g4) ==
+  sumQ (map (fun i => (1#4) * (eff u tr g2 g1 i * eff u tr g2 g1 i + eff u tr g3 g1 i * eff u tr g3 g1 i + eff u tr g3 g2 i * eff u tr g3 g2 i
+                             + eff u tr g4 g1 i * eff u tr g4 g1 i + eff u tr g4 g2 i * eff u tr g4 g2 i + eff u tr g4 g3 i * eff u tr g4 g3 i)) (ix p)).
+Proof.
+  intros H1 H2 H3 H4. unfold genic_quad, genic_freq. rewrite qsum_sumQ. apply sumQ_ext_all. intros i. cbv zeta.
+  unfold tafreq, eff, gdiff.
+  destruct (H1 i) as [-> | ->], (H2 i) as [-> | ->], (H3 i) as [-> | ->], (H4 i) as [-> | ->];
+    injz; field.
+Qed.
+
+(** the genic value does not depend on the order of the parents that share a contribution *)
+Lemma genic_freq_ext u p tr pf pg : (forall i, pf i == pg i) -> genic_freq u p tr pf == genic_freq u p tr pg.
+Proof.
+  intros H. unfold genic_freq. rewrite !qsum_sumQ. apply sumQ_ext_all. intros i. cbv zeta. rewrite (H i). reflexivity.
+Qed.
+Lemma genic_pair_sym u p tr fa fb : genic_pair u p tr fa fb == genic_pair u p tr fb fa.
+Proof. unfold genic_pair. apply genic_freq_ext. intros; ring. Qed.
+Lemma genic_tri_sym u p tr fr fa fb : genic_tri u p tr fr fa fb == genic_tri u p tr fr fb fa.
+Proof. unfold genic_tri. apply genic_freq_ext. intros; ring. Qed.
+Lemma genic_quad_sym34 u p tr f1 f2 f3 f4 : genic_quad u p tr f1 f2 f3 f4 == genic_quad u p tr f1 f2 f4 f3.
+Proof. unfold genic_quad. apply genic_freq_ext. intros; ring. Qed.
 
 (** * the tables built by [mk_setup] are the coded D1/D2 of the recombination matrix *)
 Lemma lookup_tabulate p f i j : (i < p)%nat -> (j < p)%nat -> lookup (tabulate p f) i j == f i j.
